@@ -550,6 +550,23 @@ func litPrefixEndsFF(p string) bool {
 	return n > 0 && p[n-1] == 0xFF
 }
 
+// SCAN ... CURSOR c ... COUNT with c >= 2^63 (finding C01-scan-count-cursor)
+func scanCountHugeCursor(args []string) bool {
+	count, huge := false, false
+	for i, a := range args {
+		la := strings.ToLower(a)
+		if la == "count" {
+			count = true
+		}
+		if la == "cursor" && i+1 < len(args) {
+			if n, err := strconv.ParseUint(args[i+1], 10, 64); err == nil && n >= 1<<63 {
+				huge = true
+			}
+		}
+	}
+	return count && huge
+}
+
 func isWrite(cmd string) bool {
 	switch strings.ToLower(cmd) {
 	case "set", "fset", "del", "pdel", "drop", "rename", "renamenx", "flushdb", "expire", "persist", "jset", "jdel":
@@ -635,6 +652,9 @@ func (t *tester) runProgram(m *mdl, prog [][]string, label string) (nontrivial b
 			sig := "spec-reply-" + cmd
 			if (cmd == "pdel" && len(args) == 3 && litPrefixEndsFF(args[2])) || (cmd == "keys" && len(args) == 2 && litPrefixEndsFF(args[1])) {
 				sig += "-prefix-ff"
+			}
+			if cmd == "scan" && scanCountHugeCursor(args) {
+				sig += "-count-cursor"
 			}
 			fail("oracle", sig, fmt.Sprintf("reply of %s is not the reply of the plain-map specification", strings.Join(quoteProg([][]string{args}), "")), i, pretty(got), pretty(mr.spec))
 			if gi != mi {
@@ -1037,9 +1057,10 @@ func runC01(r *hx.Result, cfg hx.Config) {
 			S("SCAN", "big", "MATCH", "id01*", "CURSOR", "3", "LIMIT", "3", "IDS"), S("SCAN", "big", "MATCH", "id01*", "MATCH", "id12*", "DESC", "IDS"), S("SCAN", "big", "MATCH", "*5", "LIMIT", "4", "NOFIELDS"),
 			S("SCAN", "big", "COUNT"), S("SCAN", "big", "CURSOR", "120", "COUNT"), S("SCAN", "big", "CURSOR", "200", "COUNT"), S("SCAN", "big", "MATCH", "id0*", "COUNT"), S("SCAN", "big", "MATCH", "id0*", "LIMIT", "20", "COUNT"),
 			S("SCAN", "big", "LIMIT", "2", "LIMIT", "3"), S("SCAN", "big", "ASC", "DESC"), S("SCAN", "big", "MATCH", ""), S("SCAN", "big", "LIMIT", "0"), S("SCAN", "big", "CURSOR", "-1"), S("SCAN", "big", "FOO"), S("SCAN", "big", "IDS", "extra"),
-			S("SCAN", "nokey", "COUNT"), S("SCAN", "nokey", "LIMIT", "5"), S("PDEL", "big", "id1*"), S("SCAN", "big", "COUNT"), S("SCAN", "big", "CURSOR", "50", "IDS"))
+			S("SCAN", "big", "CURSOR", "18446744073709551615", "IDS"), S("SCAN", "nokey", "COUNT"), S("SCAN", "nokey", "LIMIT", "5"), S("PDEL", "big", "id1*"), S("SCAN", "big", "COUNT"), S("SCAN", "big", "CURSOR", "50", "IDS"))
 		corpus = append(corpus, big)
 	}
+	corpus = append(corpus, [][]string{S("SET", "k", "a", "POINT", "1", "1"), S("SET", "k", "b", "POINT", "1", "1"), S("SCAN", "k", "CURSOR", "1", "COUNT"), S("SCAN", "k", "CURSOR", "18446744073709551615", "COUNT")})
 	for i, p := range corpus {
 		nt := t.runProgram(m, p, fmt.Sprintf("corpus-%d", i))
 		r.Count("corpus:"+strings.Join(quoteProg(p), ";"), nt)
